@@ -77,14 +77,16 @@ impl Function {
         match *self {
             Function::PostScript { ref domain, .. } => domain.len() / 2,
             Function::Sampled(ref f) => f.input.len(),
-            _ => panic!()
+            Function::Interpolated(_) => 1,
+            _ => 0
         }
     }
     pub fn output_dim(&self) -> usize {
         match *self {
             Function::PostScript { ref range, .. } => range.len() / 2,
             Function::Sampled(ref f) => f.output.len(),
-            _ => panic!()
+            Function::Interpolated(ref parts) => parts.len(),
+            _ => 0
         }
     }
 }
